@@ -42,7 +42,7 @@
 #endif
 
 enum { K_WAIT = 1, K_BEGIN, K_LOADX, K_LOAD, K_STORE, K_XCHG, K_FADD, K_READ, K_WRITE, K_INCB };
-enum { CMD_STEP = 0, CMD_CLOSE = 1, CMD_CLOSECB = 2, CMD_EINTR = 3, CMD_FORK = 4 };   /* CMD_CLOSE + 16*h */
+enum { CMD_STEP = 0, CMD_CLOSE = 1, CMD_CLOSECB = 2, CMD_EINTR = 3, CMD_FORK = 4, CMD_STOP = 5 };   /* CMD_CLOSE + 16*h */
 
 #define MAXH 4
 #define MAXS 4
@@ -66,6 +66,7 @@ static int cb_of = -1;                    /* handle whose callback the loop thre
 static int closing_now = -1;              /* handle whose uv_close is in progress */
 static uint64_t efd_count;
 static uint64_t efd_cap;                  /* cfg cap=<n>: the simulated counter saturates here (write -> EAGAIN); 0 = never */
+static int stop_budget, st_left;           /* cfg stop=<n>: uv_stop() calls from inside async callbacks per run; uv_run then returns and is run again */
 static int fork_budget, fk_left;           /* cfg fork=<n>: fork()+uv_loop_fork() events per run; the run continues in the child */
 static int dead[MAXS];                    /* sender threads that were inside uv_async_send at fork time: they do not exist in the child */
 static int eintr_budget, ei_left;         /* cfg eintr=<n>: EINTR answers the environment may give per run */
@@ -235,6 +236,7 @@ static void async_cb(uv_async_t* handle) {
 }
 
 static void loop_cmd(int cmd) {
+  if (cmd == CMD_STOP) { eff_add("stop"); uv_stop(L); return; }
   if ((cmd & 15) == CMD_CLOSE) do_close(cmd >> 4);
 }
 
@@ -246,6 +248,7 @@ static void loop_fn(int id) {
     if (cmd == CMD_STEP) {
       eff_add("wake");
       uv__async_io(L, &L->async_io_watcher, POLLIN);
+      if (L->stop_flag) L->stop_flag = 0;   /* uv_run() returns (resetting the flag) and the application runs the loop again */
     } else if (cmd == CMD_FORK) {
       /* the child's view of fork(): only this thread survives; uv_loop_fork() -> uv__async_fork() (the real one, run in
        * this process: new eventfd, handle flags reset); sends undelivered at this point are not owed in the child */
@@ -288,10 +291,10 @@ static void sender_fn(int id) {
 }
 
 /* ------------------------------------------------------------------ state, enabled set */
-typedef struct { char kind; int arg; } tok_t;    /* 's' t | 'e' t (write of sender t answers EINTR) | 'i' (loop's read answers EINTR) | 'l' | 'k' (fork, continue in the child) | 'c' h | 'f' */
+typedef struct { char kind; int arg; } tok_t;    /* 's' t | 'e' t (write of sender t answers EINTR) | 'i' (loop's read answers EINTR) | 'l' | 'k' (fork, continue in the child) | 'x' (uv_stop() inside the current async callback) | 'c' h | 'f' */
 
 static void tok_str(tok_t k, char* b) {
-  if (k.kind == 'l' || k.kind == 'f' || k.kind == 'i' || k.kind == 'k') sprintf(b, "%c", k.kind); else sprintf(b, "%c%d", k.kind, k.arg);
+  if (k.kind == 'l' || k.kind == 'f' || k.kind == 'i' || k.kind == 'k' || k.kind == 'x') sprintf(b, "%c", k.kind); else sprintf(b, "%c%d", k.kind, k.arg);
 }
 
 static int sender_midsend(int t) { return !dead[t] && !sched_done(t + 1) && sched_t[t + 1].kind != K_BEGIN; }
@@ -319,6 +322,7 @@ static int enabled_set(tok_t* out) {
     }
     if (lrun) { out[n].kind = 'l'; out[n++].arg = 0; }
     if (fk_left > 0 && lt->kind == K_WAIT) { out[n].kind = 'k'; out[n++].arg = 0; }
+    if (st_left > 0 && lt->kind == K_INCB && L->stop_flag == 0) { out[n].kind = 'x'; out[n++].arg = 0; }
     if (lt->kind == K_WAIT || lt->kind == K_INCB)
       for (h = 0; h < nh; h++)
         if (closable[h] && !closing_f[h]) { out[n].kind = 'c'; out[n++].arg = h; }
@@ -404,7 +408,7 @@ static const char* state_str(void) {
     else if (st->kind != K_BEGIN && st->kind != SCHED_K_DONE) { sprintf(ob, "k%d", st->kind); pc = ob; }
     p += sprintf(p, " t%d:%s,h%d,k%d,q%d", t, pc, S[t].h, S[t].k, S[t].seq);
   }
-  p += sprintf(p, " | ei=%d fk=%d en=", ei_left, fk_left);
+  p += sprintf(p, " | ei=%d fk=%d st=%d sf=%d en=", ei_left, fk_left, st_left, (int) L->stop_flag);
   n = enabled_set(en);
   for (t = 0; t < n; t++) { tok_str(en[t], b); p += sprintf(p, "%s%s", t ? "," : "", b); }
   return statebuf;
@@ -446,7 +450,7 @@ static void start_run(void) {
   memset(closing_f, 0, sizeof closing_f); memset(unlinked, 0, sizeof unlinked); memset(freed, 0, sizeof freed); memset(released, 0, sizeof released);
   memset(pub, 0, sizeof pub); memset(seen, 0, sizeof seen); memset(cbs, 0, sizeof cbs);
   memset(eff, 0, sizeof eff); memset(completed, 0, sizeof completed); memset(S, 0, sizeof S);
-  cb_of = closing_now = -1; efd_count = 0; ei_left = eintr_budget; fk_left = fork_budget; memset(dead, 0, sizeof dead); viol[0] = 0; pathlen = 0; effbuf[0] = 0;
+  cb_of = closing_now = -1; efd_count = 0; ei_left = eintr_budget; fk_left = fork_budget; st_left = stop_budget; L->stop_flag = 0; memset(dead, 0, sizeof dead); viol[0] = 0; pathlen = 0; effbuf[0] = 0;
   for (h = 0; h < nh; h++) {
     H[h] = malloc(sizeof(uv_async_t));
     if (uv_async_init(L, H[h], async_cb)) { fprintf(stderr, "uv_async_init failed\n"); exit(3); }
@@ -511,6 +515,7 @@ static int do_tok(tok_t k, int print) {
   } else if (k.kind == 'e') { ei_left--; sched_step(k.arg + 1, CMD_EINTR); }
   else if (k.kind == 'i') { ei_left--; sched_step(0, CMD_EINTR); }
   else if (k.kind == 'k') { fk_left--; sched_step(0, CMD_FORK); }
+  else if (k.kind == 'x') { st_left--; sched_step(0, CMD_STOP); }
   else if (k.kind == 'l') sched_step(0, CMD_STEP);
   else if (k.kind == 'c') sched_step(0, CMD_CLOSE + 16 * k.arg);
   else if (k.kind == 'f') sched_step(0, CMD_CLOSECB);
@@ -590,7 +595,7 @@ static void rand_runs(uint64_t seed, int runs) {
       if (n == 0) break;
       /* close / close-callback choices are taken less often; a chosen thread tends to keep running for a while
          and then get preempted (preemption inside the few-instruction windows is the point) */
-      for (i = 0; i < n; i++) { w[i] = (en[i].kind == 'c' || en[i].kind == 'f' || en[i].kind == 'e' || en[i].kind == 'i' || en[i].kind == 'k') ? 1 : 4; if (i == sticky) w[i] += 6; tot += w[i]; }
+      for (i = 0; i < n; i++) { w[i] = (en[i].kind == 'c' || en[i].kind == 'f' || en[i].kind == 'e' || en[i].kind == 'i' || en[i].kind == 'k') ? 1 : (en[i].kind == 'x') ? 3 : 4; if (i == sticky) w[i] += 6; tot += w[i]; }
       x = rnd() % tot;
       for (i = 0; i < n; i++) { if (x < (uint64_t) w[i]) break; x -= w[i]; }
       sticky = (rnd() % 3 == 0) ? -1 : i;
@@ -604,7 +609,7 @@ static void rand_runs(uint64_t seed, int runs) {
 
 static int parse_tok(const char* w, tok_t* k) {
   k->kind = w[0]; k->arg = 0;
-  if (w[0] == 'l' || w[0] == 'f' || w[0] == 'i' || w[0] == 'k') return w[1] == 0;
+  if (w[0] == 'l' || w[0] == 'f' || w[0] == 'i' || w[0] == 'k' || w[0] == 'x') return w[1] == 0;
   if ((w[0] == 's' || w[0] == 'c' || w[0] == 'e') && w[1] >= '0' && w[1] <= '9' && w[2] == 0) { k->arg = w[1] - '0'; return 1; }
   return 0;
 }
@@ -614,7 +619,7 @@ static void parse_cfg(char* line) {
   snprintf(cfgline, sizeof cfgline, "%s", line);
   cfgline[strcspn(cfgline, "\r\n")] = 0;
   for (char* p = strtok(line, " \t\r\n"); p && n < 16; p = strtok(NULL, " \t\r\n")) w[n++] = p;
-  nh = ns = 0; free_in_cb = 0; eintr_budget = 0; efd_cap = 0; fork_budget = 0; memset(closable, 0, sizeof closable); memset(nprog, 0, sizeof nprog);
+  nh = ns = 0; free_in_cb = 0; eintr_budget = 0; efd_cap = 0; fork_budget = 0; stop_budget = 0; memset(closable, 0, sizeof closable); memset(nprog, 0, sizeof nprog);
   for (i = 0; i < MAXS; i++) sigvictim[i] = -2;
   for (i = 1; i < n; i++) {
     char* v = strchr(w[i], '=');
@@ -624,6 +629,7 @@ static void parse_cfg(char* line) {
     else if (!strcmp(w[i], "free")) free_in_cb = !strcmp(v, "cb");
     else if (!strcmp(w[i], "eintr")) eintr_budget = atoi(v);
     else if (!strcmp(w[i], "fork")) fork_budget = atoi(v);
+    else if (!strcmp(w[i], "stop")) stop_budget = atoi(v);
     else if (!strcmp(w[i], "cap")) efd_cap = (*v == '-') ? 0 : (uint64_t) atoi(v);
     else if (!strcmp(w[i], "close")) { if (*v != '-') for (char* p = v; *p; p++) if (*p >= '0' && *p <= '9' && *p - '0' < MAXH) closable[*p - '0'] = 1; }
     else if (!strcmp(w[i], "senders")) {
@@ -709,6 +715,36 @@ static void realfork(int variant) {
   uv_loop_close(&rf_loop);
 }
 
+/* real loop: both handles signalled in one wake-up, the callback of `stopper` calls uv_stop(); the loop is then run again */
+static int rs_stopper;
+static void rs_async_cb(uv_async_t* h) {
+  int i = (h == &rf_h[1]);
+  rf_cb[i]++;
+  if (i == rs_stopper) uv_stop(h->loop);
+}
+static void realstop(int stopper) {
+  uv_loop_init(&rf_loop);
+  uv_async_init(&rf_loop, &rf_h[0], rs_async_cb);
+  uv_async_init(&rf_loop, &rf_h[1], rs_async_cb);
+  uv_timer_init(&rf_loop, &rf_guard);
+  rf_cb[0] = rf_cb[1] = 0; rs_stopper = stopper;
+  uv_async_send(&rf_h[0]); uv_async_send(&rf_h[1]);
+  uv_timer_start(&rf_guard, rf_guard_cb, 1500, 0);
+  uv_run(&rf_loop, UV_RUN_DEFAULT);
+  printf("realstop stopper=%d run1 cbA=%d cbB=%d\n", stopper, rf_cb[0], rf_cb[1]);
+  uv_run(&rf_loop, UV_RUN_NOWAIT);
+  uv_run(&rf_loop, UV_RUN_NOWAIT);
+  printf("realstop stopper=%d run3 cbA=%d cbB=%d\n", stopper, rf_cb[0], rf_cb[1]);
+  rs_stopper = -1;
+  uv_async_send(&rf_h[0]); uv_async_send(&rf_h[1]);   /* later sends must not be swallowed by a stale pending flag */
+  uv_run(&rf_loop, UV_RUN_NOWAIT);
+  printf("realstop stopper=%d resend cbA=%d cbB=%d\n", stopper, rf_cb[0], rf_cb[1]);
+  uv_timer_stop(&rf_guard);
+  uv_close((uv_handle_t*) &rf_h[0], NULL); uv_close((uv_handle_t*) &rf_h[1], NULL); uv_close((uv_handle_t*) &rf_guard, NULL);
+  uv_run(&rf_loop, UV_RUN_DEFAULT);
+  uv_loop_close(&rf_loop);
+}
+
 int main(void) {
   char line[4096];
   setvbuf(stdout, NULL, _IOFBF, 1 << 16);
@@ -722,6 +758,7 @@ int main(void) {
   while (fgets(line, sizeof line, stdin)) {
     if (!strncmp(line, "cfg", 3)) parse_cfg(line);
     else if (!strncmp(line, "realfork", 8)) realfork(atoi(line + 8));
+    else if (!strncmp(line, "realstop", 8)) realstop(atoi(line + 8));
     else if (!strncmp(line, "dfs", 3)) { int md = atoi(line + 3); dfs(md > 0 && md < 500 ? md : 300); }
     else if (!strncmp(line, "rand", 4)) { unsigned long long sd = 1; int runs = 1; sscanf(line + 4, "%llu %d", &sd, &runs); rand_runs(sd, runs); }
     else if (!strncmp(line, "sched", 5)) {
